@@ -227,6 +227,58 @@ PDB_STANDARD = set(['ALA', 'GLY', 'SER', 'HOH', 'ARG', 'ASN', 'ASP', 'CYS', 'GLN
                     'PHE', 'PRO', 'THR', 'TRP', 'TYR', 'VAL'])
 
 
+# residue names whose internal bonds the PDB writer leaves to the reader's templates (pdbfile.py, _write_footer): a bond is
+# written as a CONECT record when at least one of its atoms is in a residue *not* named here
+PDB_WRITER_STANDARD = set(['ALA', 'ASN', 'CYS', 'GLU', 'HIS', 'LEU', 'MET', 'PRO', 'THR', 'TYR', 'ARG', 'ASP', 'GLN', 'GLY', 'ILE',
+                           'LYS', 'PHE', 'SER', 'TRP', 'VAL', 'A', 'G', 'C', 'U', 'I', 'DA', 'DG', 'DC', 'DT', 'DI', 'HOH'])
+
+
+def pdb_conect_expectation(model):
+    """bonds a PDB file must carry as CONECT records even when the model has standard-named residues (whose other
+    attributes the reader may rewrite): those with an atom in a non-standard residue.  None when the model is outside what
+    CONECT records can address (same conditions as carrier_limits uses for the whole bond graph)."""
+    reasons = _pdb_structural_reasons(model)
+    if reasons - set(['standard_name']):
+        return None
+    if len(model['chains']) == 1:
+        ser = [a['serial'] for a in model['atoms']]
+        if not (all(isinstance(x, int) and 0 <= x < 100000 for x in ser) and len(set(ser)) == len(ser)):
+            return None
+    names = [model['residues'][a['res']]['name'] for a in model['atoms']]
+    return set((b[0], b[1]) for b in model['bonds'] if names[b[0]] not in PDB_WRITER_STANDARD or names[b[1]] not in PDB_WRITER_STANDARD)
+
+
+def _pdb_structural_reasons(model):
+    reasons = set()
+    chain_ids = [c['id'] for c in model['chains']]
+    if any(r['name'] in PDB_STANDARD or len(r['name']) > 3 for r in model['residues']):
+        reasons.add('standard_name')
+    if any(not (0 <= r['resSeq'] <= 9999) for r in model['residues']):
+        reasons.add('resSeq_range')
+    if any(len(r['seg']) > 4 for r in model['residues']):
+        reasons.add('segment')
+    if any(a['elem'] == 'VS' or len(a['name']) > 4 for a in model['atoms']):
+        reasons.add('atom')
+    rs = model['residues']
+    for a, b in zip(rs[:-1], rs[1:]):
+        if a['chain'] == b['chain'] and a['resSeq'] == b['resSeq']:
+            reasons.add('repeated_resSeq')
+    if any(c is not None and len(c) != 1 for c in chain_ids):
+        reasons.add('chain_id_width')
+    seen = set()
+    for a in model['atoms']:
+        if (a['res'], a['name']) in seen:
+            reasons.add('altloc')
+        seen.add((a['res'], a['name']))
+    if len(model['chains']) > 1 and (any(c is None for c in chain_ids) is False) and len(set(chain_ids)) != len(chain_ids):
+        reasons.add('chain_merge')
+    if len(model['chains']) > 26:
+        reasons.add('chains')
+    if any(c is None for c in chain_ids) and len(model['chains']) > 1 and any(c is not None for c in chain_ids):
+        reasons.add('positional_chain_letters')
+    return reasons
+
+
 def carrier_limits(carrier, model):
     """attributes this carrier is known not to hold for this model (measured carrier limits).  A loss outside
     this set is a new violation; a loss inside it is classified expect=limit (open known findings)."""
@@ -500,6 +552,20 @@ def execute(check, case, workdir):
                     t.save(p)
                 top2 = md.load(p).topology
                 drop = ('bond_type', 'bond_order')      # neither the PDB format nor the HDF5 topology JSON (pairs only) can hold them
+                want = pdb_conect_expectation(m.model) if kind == 'pdb' else None
+                if want is not None and top2.n_atoms == len(m.model['atoms']):
+                    # the part of the bond graph the file itself must carry (CONECT), judged on its own: the reader's templates
+                    # only ever add bonds between two atoms of standard residues
+                    names = [m.model['residues'][a['res']]['name'] for a in m.model['atoms']]
+                    gotb = set((min(b[0].index, b[1].index), max(b[0].index, b[1].index)) for b in top2.bonds)
+                    gotb = set(b for b in gotb if names[b[0]] not in PDB_WRITER_STANDARD or names[b[1]] not in PDB_WRITER_STANDARD)
+                    res.probe('pdb_conect_subgraph_checked')
+                    if any(names[b[0]] in PDB_WRITER_STANDARD or names[b[1]] in PDB_WRITER_STANDARD for b in want):
+                        res.probe('pdb_bond_between_standard_and_other_residue')
+                    if want - gotb:
+                        # (bonds the reader adds on its own -- a peptide link from a standard residue's C to the next residue's N --
+                        # are its documented convention and not judged here)
+                        viol('pdb', 'attr_lost:conect_bonds', {'missing': sorted(want - gotb)[:6]}, stepno, 'expect=kept')
                 derived(kind, m, top2, m.model, stepno, drop=drop, carrier=True)
             elif kind == 'h5_handle':
                 # one open reader handed out twice, with an edit of the first result in between: what the file hands out the
